@@ -133,3 +133,74 @@ def payload_st(with_bytes=True, bits64=False, surrogates=False, max_leaves=8):
     return st.one_of(
         t, st.none(),
         st.lists(t, max_size=3).map(tuple))
+
+
+# ---------------------------------------------------------------- hostile
+
+_TOKENS = ['-', ',', '/', '?', '"', '[', ']', '{', '}', ':', '\\', '0', '1',
+           '9', '٣', '²', '೫', '５', ' ', '\x1e', '\x00', 'null', 'true',
+           '{"_placeholder":true,"num":0}', '{"_placeholder":true,"num":-1}',
+           '{"_placeholder":true,"num":99}', '{"_placeholder":true,"num":1.5}',
+           '{"_placeholder":true,"num":"0"}', '{"_placeholder":1,"num":0}',
+           '{"_placeholder":true}', '9' * 9, '9' * 10, '9' * 11, '1' * 99,
+           '1' * 100, '1' * 101, '7' * 300, '[' * 30, '[' * 400, '{"a":' * 40,
+           '*', 'connect', 'disconnect', '__disconnect_final', 'message']
+
+
+def _mutate(draw, s):
+    """One grammar-level mutation of a text frame."""
+    kind = draw(st.integers(0, 7))
+    n = len(s)
+    i = draw(st.integers(0, n)) if n else 0
+    j = draw(st.integers(i, n)) if n else 0
+    if kind == 0:                      # delete a span
+        return s[:i] + s[j:]
+    if kind == 1:                      # duplicate a span
+        return s[:j] + s[i:j] + s[j:]
+    if kind == 2:                      # insert a token
+        return s[:i] + draw(st.sampled_from(_TOKENS)) + s[i:]
+    if kind == 3:                      # replace a span by a token
+        return s[:i] + draw(st.sampled_from(_TOKENS)) + s[j:]
+    if kind == 4:                      # truncate
+        return s[:i]
+    if kind == 5:                      # swap two spans
+        k = draw(st.integers(j, n)) if n else 0
+        return s[:i] + s[j:k] + s[i:j] + s[k:]
+    if kind == 6:                      # change the type digit
+        return draw(st.sampled_from(list('0123456789'))) + s[1:]
+    return s[:i] + draw(st.text(max_size=4)) + s[i:]
+
+
+@st.composite
+def hostile_text_st(draw, seeds):
+    """Mutated valid frames (seeds: list of valid text frames) and
+    unstructured text."""
+    if draw(st.integers(0, 9)) == 0:
+        return draw(st.text(max_size=20))
+    s = draw(st.sampled_from(seeds))
+    for _ in range(draw(st.integers(1, 3))):
+        s = _mutate(draw, s)
+    return s
+
+
+def hostile_msgpack_st(names, nsps):
+    """Maps resembling msgpack socket.io packets with missing / extra keys
+    and wrong types (values only; serialised by the caller)."""
+    any_v = st.one_of(
+        st.none(), st.booleans(), st.integers(-5, 10**12), st.text(max_size=5),
+        st.binary(max_size=4), st.lists(st.integers(0, 3), max_size=3),
+        st.dictionaries(st.text(max_size=3), st.integers(), max_size=2),
+        st.sampled_from(names + nsps + ['*', 0, 1, -1, 2**63 - 1]))
+    good_data = st.one_of(
+        st.lists(any_v, max_size=4),
+        st.tuples(st.sampled_from(names + ['*', 'connect', 'disconnect']),
+                  st.lists(any_v, max_size=3)).map(lambda t: [t[0]] + t[1]))
+    return st.one_of(
+        any_v,
+        st.fixed_dictionaries(
+            {},
+            optional={'type': st.one_of(st.integers(-1, 8), any_v),
+                      'data': st.one_of(good_data, any_v),
+                      'nsp': st.one_of(st.sampled_from(nsps), any_v),
+                      'id': st.one_of(st.integers(0, 5), any_v),
+                      'extra': any_v}))
